@@ -76,7 +76,7 @@ def _bisect_exit(exe, lines, found, limit=3):
     if len(found) >= limit:
         return
     rc, out, err = vlib.run_lines(exe, [], lines, timeout=600)
-    if rc == 0 and len(out) >= len(lines):
+    if rc == 0 and len([o for o in out if L_RE.match(o)]) >= len(lines):
         return
     if len(lines) == 1:
         found.append((lines[0], vlib.sanitizer_summary(err), err[-2500:]))
@@ -104,6 +104,11 @@ def run_ledger(exe, lines, shards=None, case_timeout=60):
         exit_bad = []
         while todo:
             rc, out, err = vlib.run_lines(exe, [], todo, timeout=900)
+            # only complete verdict lines count (a killed process leaves an empty or partial last line)
+            good = 0
+            while good < len(out) and L_RE.match(out[good]):
+                good += 1
+            out = out[:good]
             if len(out) >= len(todo):
                 res.extend(out[:len(todo)])
                 if rc != 0:
@@ -113,7 +118,7 @@ def run_ledger(exe, lines, shards=None, case_timeout=60):
             res.extend(out)
             # confirm on the single case (a timeout of the whole chunk must not be blamed on it)
             rc1, out1, err1 = vlib.run_lines(exe, [], [todo[k]], timeout=case_timeout)
-            if rc1 == 0 and len(out1) >= 1:
+            if rc1 == 0 and len(out1) >= 1 and L_RE.match(out1[0]):
                 res.append(out1[0])
             else:
                 res.append("CRASH " + vlib.sanitizer_summary(err1))
